@@ -133,7 +133,7 @@ package tbtc
 //@   ensures [heartbeat-last] windowIndex > 0 && rngFloat(wrap_i64(@be64(seed[0:8])), 0) < coordinationHeartbeatProbability ==> result[len(result) - 1] == ActionHeartbeat
 
 //@ func coordinationExecutor.getLeader
-//@   property C22
+//@   property C22 C24
 //@   deterministic
 //@   requires ce.coordinatedWallet.signingGroupOperators.len >= 1
 //@   ensures [leader-is-an-operator] exists i int :: 0 <= i && i < len(ce.coordinatedWallet.signingGroupOperators) && ce.coordinatedWallet.signingGroupOperators[i] == result
@@ -225,8 +225,10 @@ package tbtc
 // the index by the group size). Assumed here at the interface; ghost.groupSize is
 // tied to the operator list by the loops' preconditions.
 //@ ghost groupSize int
+//@ ghost lastReady []group.MemberIndex
 //@ assume func signingAnnouncer.Announce
-//@   modifies ghost.ctxDone
+//@   modifies ghost.ctxDone, ghost.lastReady
+//@   ensures ghost.lastReady == result0
 //@   ensures err == nil ==> len(result0) <= ghost.groupSize && (forall k int :: 0 <= k && k < len(result0) ==> 1 <= result0[k] && int(result0[k]) <= ghost.groupSize)
 //@ assume func dkgAnnouncer.Announce
 //@   modifies ghost.ctxDone
@@ -239,12 +241,13 @@ package tbtc
 //@   ensures result.signingGroupOperators == signingGroupOperators && result.groupParameters == groupParameters
 
 //@ func signingRetryLoop.start
-//@   property C11
+//@   property C11 C36
+//@   ensures [the-activity-report-names-the-ready-and-unready-members-of-the-attempt-that-succeeded] err == nil ==> result0 != nil && result0.activityReport != nil && result0.activityReport.activeMembers == ghost.lastReady && result0.activityReport.inactiveMembers == ghost.lastUnready
 //@   arith math
 //@   binds ghost.loopStart = srl.attemptStartBlock
 //@   requires srl.attemptCounter == 0
 //@   requires [selection-preconditions] ghost.groupSize == len(srl.signingGroupOperators) && len(srl.signingGroupOperators) <= 255 && srl.groupParameters.HonestThreshold >= 0
-//@   modifies srl.attemptCounter, srl.attemptStartBlock, ghost.lastSeenBlock, ghost.now, ghost.ctxDone, ghost.selCandidates, alloc
+//@   modifies srl.attemptCounter, srl.attemptStartBlock, ghost.lastSeenBlock, ghost.now, ghost.ctxDone, ghost.selCandidates, ghost.lastReady, ghost.lastUnready, alloc
 //@   loop 1 invariant srl.attemptCounter >= 0 && srl.attemptStartBlock == ghost.loopStart + ite(srl.attemptCounter >= 1, srl.attemptCounter - 1, 0) * signingAttemptMaximumBlocks()
 
 //@ assume func dkgRetryLoop.start:dkgAttemptFn
@@ -262,7 +265,7 @@ package tbtc
 //@   binds ghost.loopStart = drl.attemptStartBlock
 //@   requires drl.attemptCounter == 0
 //@   requires [selection-preconditions] ghost.groupSize == len(drl.selectedOperators) && len(drl.selectedOperators) <= 255 && drl.groupParameters.GroupQuorum >= 0 && drl.groupParameters.GroupQuorum <= 1000000000 && drl.attemptsLimit >= 1 && drl.attemptsLimit <= 1000000000
-//@   modifies drl.attemptCounter, drl.attemptStartBlock, ghost.now, ghost.ctxDone, alloc
+//@   modifies drl.attemptCounter, drl.attemptStartBlock, ghost.now, ghost.ctxDone, ghost.lastUnready, alloc
 //@   loop 1 invariant drl.attemptCounter >= 0 && drl.attemptStartBlock == ghost.loopStart + ite(drl.attemptCounter >= 1, drl.attemptCounter - 1, 0) * dkgAttemptMaximumBlocks()
 
 // ---------------------------------------------------------------------------
@@ -1129,3 +1132,11 @@ package tbtc
 //@   opt noframe 1
 //@   opt safe index slice div nil typeassert
 // <<< generated (unmarshal)
+
+// marshalPublicKey (the per-wallet key of the dispatcher, C25, and of the
+// executors' caches): the bytes are the uncompressed form of exactly this key -
+// both coordinates - and nothing remembered from another key.
+//@ func marshalPublicKey
+//@   property C25
+//@   opt noframe 1
+//@   ensures [the-bytes-are-the-uncompressed-form-of-exactly-this-key] err == nil ==> result0 == @uncompressedOf(publicKey.Curve, publicKey.X, publicKey.Y)
